@@ -38,8 +38,10 @@ from __future__ import annotations
 
 import ast
 import fnmatch
+import io
 import os
 import sys
+import tokenize
 from pathlib import Path
 
 COMPONENTS = ["Main", "Frontend", "GstThread", "Core", "Backend", "Mixer", "Audio", "Unknown"]
@@ -122,6 +124,10 @@ LISTENER_TARGET = {
 CONTAINER_METHODS = {"get", "values", "keys", "items", "add", "setdefault", "append", "remove", "update",
                      "extend", "pop", "copy", "clear", "index", "count", "sort", "insert"}
 BLOCKING_ZERO_ARG = {"get", "join", "wait", "result", "acquire"}
+CANDIDATE_NAMES = BLOCKING_ZERO_ARG | {"ask", "get_all"}
+KNOWN_EXEMPTIONS = ["receiver is not a future: Gst.Registry",
+                    "method of the enclosing object / same-file non-actor class",
+                    "ActorRegistry.get_all: registry listing"]
 
 
 def _dotted(expr):
@@ -365,6 +371,7 @@ class _FileScan(ast.NodeVisitor):
     def emit(self, kind, awaited, node, construct):
         if kind == "Blocking" and self.bounded(node):
             kind, construct = "BlockingTimeout", construct + " timeout"
+        self.last_emit = kind if "Listeners" not in self.waiters() else "expanded"
         for w in self.waiters():
             if w == "Listeners":
                 # code of listener.send: executed by every sender; expanded by the caller
@@ -373,21 +380,49 @@ class _FileScan(ast.NodeVisitor):
             for a in awaited:
                 self.out.sites.append((w, a, kind, self.rel, node.lineno, construct))
 
+    def record_examined(self, node, why_exempt):
+        """Book-keeping for the coverage obligation: what became of a candidate blocking call."""
+        f = node.func
+        name = f.attr if isinstance(f, ast.Attribute) else (f.id if isinstance(f, ast.Name) else None)
+        if name not in CANDIDATE_NAMES:
+            return
+        if self.last_emit in ("Blocking", "BlockingTimeout"):
+            disp = ("site", node.lineno)
+        elif self.last_emit == "Tell":
+            disp = ("tell", node.lineno)
+        elif self.last_emit == "expanded":
+            disp = ("expanded", node.lineno)
+        else:
+            disp = ("exempt", why_exempt or "not a blocking construct")
+        self.out.examined[(self.rel, f.end_lineno, name)] = disp
+
     def visit_Call(self, node):
+        self.last_emit = None
+        why = self._visit_call(node)
+        self.record_examined(node, why)
+        self.generic_visit(node)
+
+    def _visit_call(self, node):
+        """Apply the rules to one call; returns the reason when it is exempted."""
         f = node.func
         handled = False
+        why = None
         if isinstance(f, ast.Attribute):
             meth, recv = f.attr, f.value
             recv_d = _dotted(recv)
             timeout_only = all(k.arg == "timeout" for k in node.keywords)
             if meth in BLOCKING_ZERO_ARG and not node.args and timeout_only:
-                if recv_d in NON_BLOCKING_RECEIVERS or (meth != "get" and self.is_local_method(recv, meth)):
-                    handled = True
+                if recv_d in NON_BLOCKING_RECEIVERS:
+                    handled, why = True, "receiver is not a future: " + recv_d
+                elif meth != "get" and self.is_local_method(recv, meth):
+                    handled, why = True, "method of the enclosing object / same-file non-actor class"
                 else:
                     self.emit("Blocking", self.awaited_of(recv), node, f".{meth}()")
                     self.mark_consumed(recv)
                     handled = True
-            elif meth == "get_all" and (recv_d in {"pykka", "pykka.futures"}):
+            elif meth == "get_all" and recv_d is not None and recv_d.endswith("ActorRegistry"):
+                handled, why = True, "ActorRegistry.get_all: registry listing"
+            elif meth == "get_all":
                 arg = node.args[0] if node.args else None
                 self.emit("Blocking", self.awaited_of(arg) if arg is not None else ["Unknown"], node, "get_all")
                 handled = True
@@ -437,7 +472,10 @@ class _FileScan(ast.NodeVisitor):
                     for t in targets:
                         if w != t and c != "Listeners":
                             self.out.sites.append((w, t, "Tell", self.rel, node.lineno, f".{f.attr}(..)"))
-        self.generic_visit(node)
+        if why is None and isinstance(f, ast.Attribute) and f.attr in BLOCKING_ZERO_ARG and (
+                node.args or not all(k.arg == "timeout" for k in node.keywords)):
+            why = "has arguments (dict/str method)"
+        return why
 
     def mark_consumed(self, expr):
         while isinstance(expr, (ast.Call, ast.Attribute, ast.Subscript)):
@@ -459,6 +497,8 @@ class Translation:
         self.audio_signal_contexts = {}
         self.notes = []
         self.files = []
+        self.examined = {}     # (file, line of the method name, name) -> disposition
+        self.candidates = []   # independent token scan: (file, line, name, disposition)
 
     # -- callbacks: which thread runs them ---------------------------------------------------
     def _audio_analysis(self, trees):
@@ -537,6 +577,13 @@ class Translation:
             for w in waiters:
                 self.sites.append((w, target, kind, rel, line, "listener.send"))
         self.sites = sorted(set(self.sites), key=lambda s: (s[3], s[4], s[0], s[1], s[2], s[5]))
+        # coverage: an independent token-level scan of the raw sources lists every textual
+        # candidate (.get()/.get(timeout=)/.ask(/get_all(/.join()/.wait()/.result()/.acquire());
+        # each must have been examined by the AST pass above, else it is Missing (fail-closed)
+        for rel in self.files:
+            for line, name in _token_candidates((self.root / rel).read_text(encoding="utf-8")):
+                disp = self.examined.get((rel, line, name), ("missing", 0))
+                self.candidates.append((rel, line, name, disp))
         return self
 
     # -- views -------------------------------------------------------------------------------
@@ -570,9 +617,42 @@ class Translation:
         lines.append(";\n".join(rows))
         lines.append("].")
         lines.append("")
+        lines.append("(* every textual candidate for a blocking call (independent token scan) and what the")
+        lines.append("   translator made of it *)")
+        lines.append("Definition candidates : list cand := [")
+        crow = []
+        for rel, line, name, disp in self.candidates:
+            d = {"site": f"(DSite {disp[1]})", "tell": "DTell", "expanded": "DExpanded",
+                 "missing": "DMissing"}.get(disp[0]) or f'(DExempt "{_coq_str(str(disp[1]))}")'
+            crow.append(f'  mkCand "{rel}" {line} "{name}" {d}')
+        lines.append(";\n".join(crow))
+        lines.append("].")
+        lines.append("")
         lines.append("Definition edges : list site := filter site_blocking sites.")
         lines.append(f"Definition files_scanned : Z := {len(self.files)}.")
         return "\n".join(lines) + "\n"
+
+
+def _token_candidates(text):
+    """(line, name) of every `.get()`, `.get(timeout=`, `.join()`, `.wait()`, `.result()`,
+    `.acquire()` (zero positional arguments), `.ask(` and `get_all(` in the token stream
+    (comments and string literals cannot match)."""
+    skip = {tokenize.NL, tokenize.NEWLINE, tokenize.COMMENT, tokenize.INDENT, tokenize.DEDENT}
+    toks = [t for t in tokenize.generate_tokens(io.StringIO(text).readline) if t.type not in skip]
+    out = []
+    for i, t in enumerate(toks):
+        if t.type != tokenize.NAME or i + 1 >= len(toks) or toks[i + 1].string != "(":
+            continue
+        dotted = i > 0 and toks[i - 1].string == "."
+        nxt = toks[i + 2] if i + 2 < len(toks) else None
+        if t.string in BLOCKING_ZERO_ARG and dotted and nxt is not None:
+            if nxt.string == ")" or (nxt.string == "timeout" and i + 3 < len(toks) and toks[i + 3].string == "="):
+                out.append((t.start[0], t.string))
+        elif t.string == "ask" and dotted:
+            out.append((t.start[0], "ask"))
+        elif t.string == "get_all" and not (i > 0 and toks[i - 1].string == "def"):
+            out.append((t.start[0], "get_all"))
+    return out
 
 
 def _coq_str(s):
